@@ -212,7 +212,8 @@ class RoundTrip:
         if is_unknown(r):
             return ("reject", "converter not evaluable: %r" % (r,))
         if isinstance(r, Var) and r.path in ERR_PATHS:
-            return ("reject", "converter returns an error: %r" % (r.args[:1],))
+            # the error itself is decided; its message text may contain pieces the interpreter does not render
+            return ("reject", ("converter returns an error: %r" % (r.args[:1],)).replace("Unknown(", "<text>("))
         if isinstance(r, Var) and r.path in OK_PATHS:
             u = find_unknown(r.args[0])
             if u is not None:
